@@ -401,7 +401,8 @@ def job_roundtrip(job) -> report.JobResult:
             pairs.append((str(kk), str(v)))
         q = QueryParams(pairs)
         text = str(q)
-        q2 = QueryParams(text)
+        # the query string as the bytes an ASGI scope carries (the documented bytes form of the constructor), or as text
+        q2 = QueryParams(text.encode("ascii")) if job.get("as_bytes") else QueryParams(text)
         if twin:
             raise Fail("twin-assert-false")
         a, b = q.multi_items(), q2.multi_items()
@@ -422,7 +423,7 @@ def job_roundtrip(job) -> report.JobResult:
         if klass != "roundtrip-pair-changed":
             e.last_sat = False
         m = e.witness()
-        wit = {"pairs": [[conc(k, m), conc(v_, m)] for k, v_ in texts]}
+        wit = {"pairs": [[conc(k, m), conc(v_, m)] for k, v_ in texts], "as_bytes": bool(job.get("as_bytes"))}
         cp = concrete_roundtrip(wit)
         if klass is not None:
             res.violation(f"C17/query-string-roundtrip/{klass.split(':')[0]}", wit, f"{klass} {detail}; concrete: {cp}", (cp is not None) or twin)
@@ -474,7 +475,7 @@ def concrete_roundtrip(w):
     Engine.cur = None
     try:
         q = QueryParams([tuple(p) for p in w["pairs"]])
-        q2 = QueryParams(str(q))
+        q2 = QueryParams(str(q).encode("ascii")) if w.get("as_bytes") else QueryParams(str(q))
         if q2.multi_items() != q.multi_items() or not (q2 == q):
             return f"{q.multi_items()!r} -> {str(q)!r} -> {q2.multi_items()!r}"
         return None
@@ -492,6 +493,8 @@ def jobs(tier: str):
         shapes += [[(2, 2)], [(1, 0), (1, 0), (1, 1)], [(2, 0), (2, 1)], [(1, 3)]]  # at most 5 symbolic characters per job (9 classes each)
     for sh in shapes:
         out.append(dict(name="roundtrip/" + ("+".join(f"k{a}v{b}" for a, b in sh) or "empty"), kind="roundtrip", shape=sh, weight=8 ** sum(a + b for a, b in sh)))
+    for sh in ([(1, 1)], [(0, 2)], [(1, 0), (1, 1)]):
+        out.append(dict(name="roundtrip-bytes/" + "+".join(f"k{a}v{b}" for a, b in sh), kind="roundtrip", shape=sh, as_bytes=True, weight=8 ** sum(a + b for a, b in sh)))
     out.append(dict(name="roundtrip/many-pairs", kind="roundtrip-many", weight=40))
     out.append(dict(name="twin/roundtrip", kind="roundtrip", shape=[(1, 1)], twin=True))
     core = ("assign", "delete", "setlist1", "poplist", "append")
